@@ -112,10 +112,49 @@ def coq_project():
 
 
 def pygen():
-    rc, out = run([sys.executable, os.path.join(VERIF, 'tools', 'pygen.py'), REPO, COQ], 120, cwd=VERIF)
+    """regenerate Gen/*.v; returns (lines of tables that could not be produced at all,
+    names of tables for which the committed snapshot stands in because the translator did not recognise the source)"""
+    rc, out = run([sys.executable, os.path.join(VERIF, 'tools', 'pygen.py'), '--snapshot-fallback', REPO, COQ], 120,
+                  cwd=VERIF)
     if out.strip():
         log(out.strip())
-    return [l for l in out.split('\n') if 'FAILED' in l]
+    failed = [l for l in out.split('\n') if 'pygen: FAILED' in l]
+    if rc != 0 and not failed:
+        failed = ['pygen: FAILED (translator crashed): ' + out.strip()[-300:]]
+    return failed, re.findall(r'^pygen: SNAPSHOT (\w+):', out, re.M)
+
+
+def snapshot_source():
+    try:
+        return open(os.path.join(VERIF, 'gen_snapshot', 'SOURCE')).read().strip()[:12]
+    except OSError:
+        return '?'
+
+
+def depends_on_gen(pid, names):
+    """which of the Gen tables `names` the check and the theorems of property pid depend on (transitively),
+    read from coq_makefile's dependency file"""
+    deps = {}
+    try:
+        for l in open(os.path.join(COQ, '.Makefile.d')):
+            if ':' not in l:
+                continue
+            lhs, rhs = l.split(':', 1)
+            for t in lhs.split():
+                if t.endswith('.vo'):
+                    deps.setdefault(t, set()).update(x for x in rhs.split() if x.endswith('.vo'))
+    except OSError:
+        return list(names)
+    seen, todo = set(), ['Check/%s.vo' % pid, 'Check/%s_spec.vo' % pid, 'Properties/%s.vo' % pid]
+    while todo:
+        t = todo.pop()
+        if t in seen:
+            continue
+        seen.add(t)
+        todo.extend(deps.get(t, ()))
+    if len(seen) <= 3:
+        return list(names)
+    return [n for n in names if 'Gen/%s.vo' % n in seen]
 
 
 def make(targets, timeout=1500, jobs=16):
@@ -325,7 +364,7 @@ def run_check(prop, tier='quick', seed=0, replay=None, budget=None):
     notes = []
 
     with BuildLock():
-        gen_failed = pygen()
+        gen_failed, gen_snapped = pygen()
         coq_project()
         bad_vernac = scan_forbidden()
         # spec must build; model may not; proofs may not
@@ -458,6 +497,39 @@ def run_check(prop, tier='quick', seed=0, replay=None, budget=None):
     for fid, (f, c, o) in sorted(known_hits.items()):
         print('KNOWN-FINDING: property=%s %s: %s' % (pid, fid, f['what']))
 
+    # tie 1 (translator) absent for a table this property depends on: the table is the committed snapshot, so the
+    # model is a hand-written one here and the correspondence check alone ties it to the source - widen it
+    tie_degraded = depends_on_gen(pid, gen_snapped) if gen_snapped else []
+    if os.environ.get('VERIF_FORCE_WIDEN'):      # self-test of the widened run on a tree where tie 1 is intact
+        tie_degraded = tie_degraded or ['(none: VERIF_FORCE_WIDEN)']
+    n_widened = 0
+    if tie_degraded and not replay and proofs_ok and model_ok and not spec_bad and not diffs and not crashes:
+        for extra in range(1, 4):
+            rng2 = random.Random((seed + extra) * 1000003 + 17)
+            its = [(c, safe_run_impl(prop, c)) for c in prop.generate(rng2, 'thorough', prop.quick_n * 2)]
+            crashes.extend((c, o) for c, o in its if 'harness_crash' in o)
+            its = [(c, o) for c, o in its if 'harness_crash' not in o]
+            vs, ok2, elog2 = eval_cases(prop, its, True, 'tiewiden')
+            if not ok2:
+                model_ok = False
+                notes.append('widened correspondence could not be evaluated with the model')
+                log(elog2[-1500:])
+                break
+            n_widened += len(its)
+            for (c, o), v in zip(its, vs):
+                counts[v] = counts.get(v, 0) + 1
+                if v in ('VSpec', 'VBoth'):
+                    f = matches_open(c, o)
+                    if not (f and v == 'VSpec'):
+                        spec_bad.append((c, o))
+                if v in ('VDiff', 'VBoth'):
+                    diffs.append((c, o))
+            if spec_bad or diffs or crashes:
+                break
+        notes.append('translator did not recognise the current source for %s: table(s) taken from the committed snapshot '
+                     '(gen_snapshot/, generated from /repo %s); tie by correspondence only, widened by %d cases'
+                     % (', '.join(tie_degraded), snapshot_source(), n_widened))
+
     rc = 0
     if crashes and not spec_bad:
         c, o = crashes[0]
@@ -552,6 +624,9 @@ def run_check(prop, tier='quick', seed=0, replay=None, budget=None):
             'corpus_cases': n_corpus,
             'exhaustive': bool(exhaustive_desc), 'exhaustive_part': exhaustive_desc,
             'proofs_built': proofs_ok, 'model_built': model_ok, 'gen_failed': gen_failed,
+            'gen_snapshot_used': tie_degraded, 'widened_correspondence_cases': n_widened,
+            'tie': ('correspondence only: snapshot tables for ' + ', '.join(tie_degraded)) if tie_degraded
+                   else 'translator (tables regenerated from the source on this run) and correspondence',
             'known_findings_seen': sorted(known_hits), 'notes': notes, 'coqchk': coqchk,
             'wall_impl_s': round(t_impl, 2),
         },
@@ -564,6 +639,9 @@ def run_check(prop, tier='quick', seed=0, replay=None, budget=None):
     if not replay:
         os.makedirs(os.path.join(OUT, 'evidence'), exist_ok=True)
         json.dump(ev, open(os.path.join(OUT, 'evidence', pid + '.json'), 'w'), indent=1, sort_keys=True)
+    if tie_degraded and rc == 0:
+        print('NOTE property=%s translator did not recognise the current source for %s; snapshot table(s) used, '
+              'correspondence widened by %d cases: no difference' % (pid, ', '.join(tie_degraded), n_widened))
     log('%s %s: cases=%d verdicts=%s proofs_ok=%s model_ok=%s wall=%.1fs rc=%d' % (
         pid, tier, len(items), counts, proofs_ok, model_ok, time.time() - t0, rc))
     return rc
